@@ -205,11 +205,24 @@ def leanchecker(prop: str):
     return rc == 0, (out + err)[-2000:]
 
 
-def driver(requests: list[dict], timeout=1800) -> list:
-    """Run a batch of requests through the compiled model driver."""
+def driver(requests: list[dict], timeout=1800, par=None) -> list:
+    """Run a batch of requests through the compiled model driver (large batches are split over
+    several driver processes)."""
     lean_build()
     if not requests:
         return []
+    if par is None:
+        par = len(requests) >= 32
+    if par and len(requests) > 1:
+        from concurrent.futures import ThreadPoolExecutor
+        n = min(16, os.cpu_count() or 4, len(requests))
+        chunks = [requests[i::n] for i in range(n)]
+        with ThreadPoolExecutor(n) as ex:
+            parts = list(ex.map(lambda c: driver(c, timeout=timeout, par=False), chunks))
+        out = [None] * len(requests)
+        for i, part in enumerate(parts):
+            out[i::n] = part
+        return out
     inp = "\n".join(json.dumps(r, separators=(",", ":")) for r in requests) + "\n"
     p = subprocess.run([str(DRIVER)], input=inp, capture_output=True, text=True, timeout=timeout)
     if p.returncode != 0:
